@@ -16,7 +16,8 @@ LEVEL_TEXT = 'exploration with an exhaustive part: all forests up to the bound, 
 RULE = (
     "case = tree spec; exhaustive part: every ordered forest with <= N uniquely labelled nodes; Hypothesis part: "
     "trees with clones and with equal-comparing siblings (same data, distinct explicit data_ids), and trees reached "
-    "through a short mutation history (remove with keep_children, move, clear, filter, ...). Per case every "
+    "through a short mutation history (remove with keep_children, move, clear, filter, ...; there the queries are "
+    "evaluated on the same tree before the history, after a generated subset of its steps and at its end). Per case every "
     "relationship query of every node and of every ordered pair of nodes is compared with values recomputed from "
     "the parent map / child lists of an independent structural walk (by identity). Non-trivial: some node has "
     ">= 2 siblings or depth >= 3; distinct = distinct spec."
@@ -55,25 +56,23 @@ def run(case, rec):
 
 
 def run_after_history(case, rec):
-    """The same queries on a tree that was reached through a mutation history
-    (internal representations such as 'no children' may differ from a freshly built tree)."""
-    from vlib.invariants import structural
-    from vlib.ops import Engine
+    """The same queries on ONE tree before a mutation history, after a generated subset of its steps and at its end
+    (internal representations such as 'no children' may differ from a freshly built tree, and an answer that was
+    remembered from an earlier query must not survive a mutation)."""
+    from vlib import requery
 
-    eng = Engine(case["spec"], typed=False, spec2=case.get("spec2"))
-    for op in case["ops"]:
-        eng.step(op, check_unchanged=False)
-    problems, w = structural(eng.tree)
-    if problems:
-        rec.cls("abandoned:tree-not-well-formed(C01)")
-        return
-    rec.cls("after-history")
-    check_tree(eng.tree, rec, len(w.pre))
+    def check(tree, rec, eng):
+        check_tree(tree, rec, None)
+
+    case = dict(case, typed=False)
+    q = requery.run(case, rec, check)
+    if q:
+        rec.cls("after-history")
 
 
 def check_tree(tree, rec, n_expected):
     w = walk(tree)
-    if w.problems or len(w.pre) != n_expected:
+    if w.problems or (n_expected is not None and len(w.pre) != n_expected):
         rec.fail("walk", w.problems)
         return
     kids, parent, depth = w.kids, w.parent, w.depth
@@ -319,7 +318,7 @@ def history_cases(draw, tier):
     from vlib import gen_ops
 
     case = draw(gen_ops.histories(typed=False, max_ops=8, max_nodes=10,
-                                  kinds=["remove", "remove", "move", "add", "remove_children", "sort", "add_node", "set_data", "filter"]))
+                                  kinds=["remove", "remove", "move", "move", "add", "remove_children", "sort", "add_node", "set_data", "filter"]))
     # directed tail: un-nest / remove / empty some nodes (also leaves and only children)
     tail = draw(st.lists(st.one_of(
         st.tuples(st.just("remove"), st.integers(0, 40), st.just(True), st.just(False)).map(list),
@@ -328,6 +327,8 @@ def history_cases(draw, tier):
         st.tuples(st.just("move"), st.integers(0, 40), st.integers(-1, 40), st.none()).map(list),
     ), min_size=1, max_size=4))
     case["ops"] = case["ops"] + tail
+    # steps after which the queries are evaluated again (always before the first and after the last one)
+    case["q"] = draw(st.lists(st.sampled_from([0, 0, 1]), min_size=len(case["ops"]), max_size=len(case["ops"])))
     return case
 
 
